@@ -3,8 +3,10 @@
 //! leaves of a tree of `BitProducer::split`s (what `par_join` hands to rayon).
 //!
 //! case: `[combo, na, a-ops.., nb, b-ops.., nt, tree..]`; an op `z > 0` adds `z - 1`, `z < 0` removes
-//! `-z - 1`; combo 0 = a, 1 = a & b, 2 = a | b, 3 = a ^ b, 4 = a & !b; the tree in preorder, 1 = split.
-use specs::hibitset::{BitProducer, BitSet, BitSetAnd, BitSetLike, BitSetNot, BitSetOr, BitSetXor};
+//! `-z - 1`, `z = 0` clears the set; combo 0 = a, 1 = a & b, 2 = a | b, 3 = a ^ b, 4 = a & !b, 5 = a kept in an
+//! `AtomicBitSet` (adds through `add_atomic`), 6 = b | a with a atomic (the mask of the entities resource:
+//! alive | created this frame); the tree in preorder, 1 = split.
+use specs::hibitset::{AtomicBitSet, BitProducer, BitSet, BitSetAnd, BitSetLike, BitSetNot, BitSetOr, BitSetXor};
 use specs::rayon::iter::plumbing::UnindexedProducer;
 
 enum Tree {
@@ -35,8 +37,26 @@ fn apply(s: &mut BitSet, ops: &[i64]) {
     for &z in ops {
         if z > 0 {
             s.add(op_index(z));
-        } else {
+        } else if z < 0 {
             s.remove(op_index(z));
+        } else {
+            s.clear();
+        }
+    }
+}
+
+fn apply_atomic(s: &mut AtomicBitSet, ops: &[i64]) {
+    for (k, &z) in ops.iter().enumerate() {
+        if z > 0 {
+            if k % 3 == 2 {
+                s.add(op_index(z));
+            } else {
+                s.add_atomic(op_index(z));
+            }
+        } else if z < 0 {
+            s.remove(op_index(z));
+        } else {
+            s.clear();
         }
     }
 }
@@ -45,7 +65,7 @@ fn bits(w: usize) -> Vec<i64> {
     (0..64).filter(|b| w >> b & 1 == 1).map(|b| b as i64).collect()
 }
 
-fn dump(s: &BitSet, ops: &[i64], base: i64, out: &mut Vec<Vec<i64>>) {
+fn dump<S: BitSetLike>(s: &S, ops: &[i64], base: i64, out: &mut Vec<Vec<i64>>) {
     let mut e = vec![base + 3];
     e.extend(bits(s.layer3()));
     out.push(e);
@@ -68,9 +88,10 @@ fn dump(s: &BitSet, ops: &[i64], base: i64, out: &mut Vec<Vec<i64>>) {
     // the bottom layer: every word an operation of this case addressed, and its neighbours
     let mut idx: Vec<usize> = ops
         .iter()
+        .filter(|&&z| z != 0)
         .flat_map(|&z| {
             let p = (op_index(z) >> 6) as usize;
-            vec![p.saturating_sub(1), p, p + 1]
+            vec![p.saturating_sub(1), p, (p + 1).min((1 << 18) - 1)]
         })
         .collect();
     idx.sort();
@@ -135,13 +156,21 @@ pub fn run_case(h: &[i64]) -> Vec<Vec<i64>> {
     let tree = dec_tree(&tr, &mut pos);
     let mut a = BitSet::new();
     let mut b = BitSet::new();
-    apply(&mut a, &aops);
+    let mut at = AtomicBitSet::new();
     apply(&mut b, &bops);
     let mut out = Vec::new();
-    dump(&a, &aops, 20, &mut out);
+    if combo == 5 || combo == 6 {
+        apply_atomic(&mut at, &aops);
+        dump(&at, &aops, 20, &mut out);
+    } else {
+        apply(&mut a, &aops);
+        dump(&a, &aops, 20, &mut out);
+    }
     dump(&b, &bops, 30, &mut out);
-    let probes: Vec<i64> = aops.iter().chain(bops.iter()).cloned().collect();
+    let probes: Vec<i64> = aops.iter().chain(bops.iter()).cloned().filter(|&z| z != 0).collect();
     match combo {
+        5 => run(&at, &probes, &tree, &mut out),
+        6 => run(&BitSetOr(&b, &at), &probes, &tree, &mut out),
         1 => run(&BitSetAnd(&a, &b), &probes, &tree, &mut out),
         2 => run(&BitSetOr(&a, &b), &probes, &tree, &mut out),
         3 => run(&BitSetXor(&a, &b), &probes, &tree, &mut out),
